@@ -81,7 +81,7 @@ fn short_len(cs: usize, t: Tier) -> usize {
 }
 
 fn gen(t: Tier, _seed: u64, emit: &mut dyn FnMut(Case)) {
-    for cid in Cid::ALL {
+    for cid in Cid::WITH_CUSTOM {
         let sp = spec::spec(cid);
         for a in 0..=255u8 {
             emit(Case::Pairs { cid, a });
@@ -315,6 +315,14 @@ fn one<A: Sx>(sp: &Spec, v: &[u8], out: &mut Out) {
             ];
             for (nm, t) in forms {
                 out.check(t == shown, || (format!("{n}/display/{nm}-differs-from-to_string"), format!("{nm} of parsed {:?} = {:?}, to_string() = {:?}", esc(v), t, shown)));
+            }
+            // a formatter that fails half way (a full buffer) leaves nothing behind that shows up in the next output
+            if v.len() >= 2 && v.len() <= 70 {
+                let tail = &seq[1..];
+                let after = display_after_failed_write(seq, v.len(), &tail);
+                out.check(after.as_bytes() == &want_chars[1..], || {
+                    (format!("{n}/display/output-after-a-failed-write-is-wrong"), format!("after formatting {:?} into a sink that failed, its tail displays as {:?}", esc(v), after))
+                });
             }
             // display -> parse -> display is the identity (at symbol level)
             out.stage = "parse(display(seq))";
